@@ -235,6 +235,11 @@ def gen_history(rng):
             ops.append(('call-inputs', rng.randrange(6), [rng.choice(INPUT_VALUES) for _ in range(rng.randint(0, 2))]))
         else:
             ops.append(('run-main-again', None))
+    if rng.random() < 0.12:
+        # once in the history the instructor lets one program talk to the real console (Sandbox.run(real_io=True)); it ends
+        # normally, with an error, or with an exception that run() hands on to the instructor
+        acts = [a for a in gen_actions(rng, allow_raise=False) if a[0] not in ('input', 'input-alias')]
+        ops.insert(rng.randint(1, len(ops)), ('run-real-io', acts, rng.choice(['normally', 'with-an-error', 'with-KeyboardInterrupt'])))
     return {'funcs': funcs, 'main': main, 'ops': ops, 'echo_to_console': rng.random() < 0.15, 'full_traceback': rng.random() < 0.25}
 
 
@@ -285,7 +290,9 @@ def check_history(ctx, h):
     starved = 0
     real_out = io.StringIO()
     saved_stdout = sys.stdout
+    saved_stdin = sys.stdin
     sys.stdout = real_out
+    sys.stdin = io.StringIO('')         # (nobody is to read the real console; whoever does gets EOFError instead of waiting)
     try:
         for idx, op in enumerate(h['ops']):
             kind = op[0]
@@ -303,6 +310,21 @@ def check_history(ctx, h):
                     m.set_input(op[2], True)
                     expect_exec = m.execution(acts)
                     sbx.run(code=actions_to_code(acts), inputs=op[2])
+                elif kind == 'run-real-io':
+                    acts = as_acts(op[1])
+                    expect_exec = m.execution(acts)
+                    m.set_input(None)       # (documented: the queue is cleared when the real console is given back)
+                    code = actions_to_code(acts) + {'normally': '', 'with-an-error': "\nraise ValueError('planned')",
+                                                    'with-KeyboardInterrupt': '\nraise KeyboardInterrupt'}[op[2]]
+                    try:
+                        sandbox.run(code=code, real_io=True)
+                    except KeyboardInterrupt:
+                        if op[2] != 'with-KeyboardInterrupt':
+                            raise
+                    # what it wrote was meant to be seen on the console as well
+                    real_out.seek(0)
+                    real_out.truncate()
+                    ctx.count('executions_with_the_real_console')
                 elif kind == 'call':
                     expect_exec = m.execution(funcs[op[1]])
                     sbx.call('f%d' % op[1])
@@ -373,6 +395,10 @@ def check_history(ctx, h):
                               'expected %r\n     got %r' % (m.lines[-12:], lines[-12:]))
                 return
             q = sbx.get_input()
+            if kind == 'run-real-io' and not isinstance(q, list):
+                ctx.violation('C15|input-queue-is-not-a-queue|after-%s|%s' % (kind, op[2]), where,
+                              'after the execution with the real console the inputs are %r: later input() calls read the real console' % (q,))
+                return
             if isinstance(q, list) and q != m.queue:
                 ctx.violation('C15|input-queue|after-%s' % kind, where, 'expected %r got %r' % (m.queue, q))
                 return
@@ -381,6 +407,7 @@ def check_history(ctx, h):
                 return
     finally:
         sys.stdout = saved_stdout
+        sys.stdin = saved_stdin
     nt = None
     if (n_exec >= 2 and silent >= 1) or (queue_ops_between and n_exec >= 2) or starved:
         nt = h
